@@ -233,6 +233,50 @@ namespace vh
                                 answer_rc(o, *g1, acc, i, dsc);
                     }
                     out += o.done() + "\n";
+                    // buffer-reusing walk: the index argument is an element of the output buffer itself,
+                    // grid.neighbors(buf[j].idx, buf) / grid.neighbors_indices(ibuf[j], ibuf); the answer is
+                    // recorded as a query of the node that was asked for
+                    if (acc == "all")
+                    {
+                        auto walk = [&](auto& g, int sc, long long in)
+                        {
+                            auto buf = g.neighbors(i);
+                            if (buf.size() > 0)
+                            {
+                                size_t j = (i + buf.size() / 2) % buf.size();
+                                size_t target = buf[j].idx;
+                                g.neighbors(buf[j].idx, buf);
+                                vj::obj o2;
+                                o2.str("e", "Q").str("acc", "neighbors_buf").num("inst", in).num("i", static_cast<long long>(target));
+                                std::string sb = "[";
+                                for (size_t k = 0; k < buf.size(); ++k)
+                                    sb += std::string(k ? "," : "") + "[" + std::to_string(buf[k].idx) + "," + std::to_string(dq_of(g, buf[k].distance, sc))
+                                          + "," + std::to_string(static_cast<int>(buf[k].status)) + "]";
+                                o2.raw("neighbors_buf", sb + "]");
+                                out += o2.done() + "\n";
+                            }
+                            auto ibuf = g.neighbors_indices(i);
+                            if (ibuf.size() > 0)
+                            {
+                                size_t j = (i + 1) % ibuf.size();
+                                size_t target = ibuf[j];
+                                g.neighbors_indices(ibuf[j], ibuf);
+                                vj::obj o3;
+                                o3.str("e", "Q").str("acc", "indices_buf").num("inst", in).num("i", static_cast<long long>(target));
+                                std::string sb = "[";
+                                for (size_t k = 0; k < ibuf.size(); ++k)
+                                    sb += std::string(k ? "," : "") + std::to_string(static_cast<long long>(ibuf[k]));
+                                o3.raw("indices_buf", sb + "]");
+                                out += o3.done() + "\n";
+                            }
+                        };
+                        if (inst == 0)
+                            walk(*g0, dsc, inst);
+                        else if (inst == 2 && g2)
+                            walk(*g2, dsc2, inst);
+                        else
+                            walk(*g1, dsc, inst);
+                    }
                 }
             return out;
         }
@@ -282,6 +326,24 @@ namespace vh
                     o2.str("e", "Q").str("acc", acc).num("inst", q[1].as_int()).num("i", static_cast<long long>(i));
                     answer(o2, *g, acc, i, dsc);
                     out += o2.done() + "\n";
+                    if (acc == "all")
+                    {
+                        auto buf = g->neighbors(i);
+                        if (buf.size() > 0)
+                        {
+                            size_t j = (i + buf.size() / 2) % buf.size();
+                            size_t target = buf[j].idx;
+                            g->neighbors(buf[j].idx, buf);
+                            vj::obj o3;
+                            o3.str("e", "Q").str("acc", "neighbors_buf").num("inst", q[1].as_int()).num("i", static_cast<long long>(target));
+                            std::string sb = "[";
+                            for (size_t k = 0; k < buf.size(); ++k)
+                                sb += std::string(k ? "," : "") + "[" + std::to_string(buf[k].idx) + "," + std::to_string(dq_of(*g, buf[k].distance, dsc))
+                                      + "," + std::to_string(static_cast<int>(buf[k].status)) + "]";
+                            o3.raw("neighbors_buf", sb + "]");
+                            out += o3.done() + "\n";
+                        }
+                    }
                 }
             return out;
         }
